@@ -323,6 +323,15 @@ def corpus():
     ]
 
 
+def subclass_check(case, outs):
+    """the same calls with keys, values and the default given as instances of a bytes subclass give the same results"""
+    alt = run_impl(C.subify(dict(case)))[0]
+    if alt != outs:
+        i = next((j for j, (a, b) in enumerate(zip(alt, outs)) if a != b), None)
+        return f"tree behaves differently when keys / values are instances of a bytes subclass (output {i}: {alt[i]!r} vs {outs[i]!r})"
+    return None
+
+
 def check(tier, seed):
     R = C.Reporter("C14", tier, seed)
     R.gate = C.proof_gate("C14")
@@ -340,7 +349,7 @@ def check(tier, seed):
         R.count("default_blank" if case["default"] == b"" else "default_nonblank")
         for o in case["ops"]:
             R.count("op_" + o[0])
-        bad = oracle(case, outs, aux)
+        bad = oracle(case, outs, aux) or subclass_check(case, outs)
         if bad:
             R.spec_violations.append((bad, case))
         if nontrivial(case):
@@ -380,6 +389,6 @@ def replay(payload):
     case = payload["case"]
     case["ops"] = [tuple(o) for o in case["ops"]]
     outs, aux = run_impl(case)
-    bad = oracle(case, outs, aux)
+    bad = oracle(case, outs, aux) or subclass_check(case, outs)
     print("replay:", "VIOLATES: " + bad if bad else "holds")
     return 1 if bad else 0
